@@ -184,7 +184,7 @@ func genDoc(t *rapid.T) *Doc {
 			nr = 2
 		}
 		for i := 0; i < nr; i++ {
-			r := Rec{N1: rapid.Int64Range(1, 1000).Draw(t, "count"), Addrs: stack(2)}
+			r := Rec{N1: rapid.OneOf(rapid.Int64Range(1, 1000), rapid.SampledFrom([]int64{127, 128, 129, 255, 256, 0x8000, 0x80000000, 1 << 20})).Draw(t, "count"), Addrs: stack(2)}
 			if r.Addrs[1] == r.Addrs[0] {
 				r.Addrs[1] += 16 // a second frame equal to the leaf is the duplicated-leaf artefact (generated separately)
 			}
